@@ -42,6 +42,9 @@ ShapeWitness(shape) ==
   CASE shape = "webhook_security" -> {"Dev_WebhookSecurityMethods"}
     [] shape = "pattern_responses_same_schema" -> {"Dev_PatternResponsesSameSchema"}
     [] shape = "recursive_optional_nullable" -> {"Dev_RecursiveOptionalNullableBox"}
+    [] shape = "default_not_representable" -> {"Dev_DefaultNotRepresentable"}
+    [] shape = "form_empty_object" -> {"Dev_FormEmptyObjectUnusedVariables"}
+    [] shape \in {"enum_constant_vs_schema", "getter_vs_property", "validate_property"} -> {"Dev_GeneratedIdentifierCollision"}
     [] OTHER -> {}
 \*   Dev_SiblingNameCollision         two names of one scope whose Go identifiers coincide
 \*                                    ("+$" and "+*" both become Plus): properties are checked
